@@ -9,14 +9,14 @@ routine's first vertex changes (two halted runs with different traces).  The har
 namespace ESV.Decomp
 open ESV.Beh
 
-def sOp (i : Nat) (off : Int) (name : String) : BVertex := ⟨some i, .item (.op ⟨off, name, []⟩), none, [], [], false, none, []⟩
+def sOp (i : Nat) (off : Int) (name : String) : BVertex := ⟨some i, .item (.op ⟨off, name, []⟩), none, [], [], false, none, [], false, false, none, [], none, none, false⟩
 def sSw (i : Nat) (off : Int) (name : String) (id : Nat) : BVertex :=
-  ⟨some i, .item (.op ⟨off, name, []⟩), none, [], [], false, some id, []⟩
+  ⟨some i, .item (.op ⟨off, name, []⟩), none, [], [], false, some id, [], false, false, none, [], none, none, false⟩
 def sLj (i : Nat) (off : Int) (name : String) : BVertex :=
-  ⟨some i, .item (.ljump ⟨off, name, []⟩ 0 false), none, [], [], false, none, []⟩
+  ⟨some i, .item (.ljump ⟨off, name, []⟩ 0 false), none, [], [], false, none, [], false, false, none, [], none, none, false⟩
 def sIf (i : Nat) (off : Int) (name : String) (ifs : Nat) : BVertex :=
-  ⟨some i, .item (.ljump ⟨off, name, []⟩ 0 false), some ifs, [], [], false, none, []⟩
-def sLab (i : Nat) (id : Nat) : BVertex := ⟨some i, .item (.label id), none, [], [], false, none, []⟩
+  ⟨some i, .item (.ljump ⟨off, name, []⟩ 0 false), some ifs, [], [], false, none, [], false, false, none, [], none, none, false⟩
+def sLab (i : Nat) (id : Nat) : BVertex := ⟨some i, .item (.label id), none, [], [], false, none, [], false, false, none, [], none, none, false⟩
 def sE (s d lv : Nat) (isElse : Bool := false) (ops : List SwOp := []) : BEdge := ⟨s, d, lv, false, isElse, ops⟩
 
 def afterSwitch (ans : List (Option (List Nat))) (g : BGraph) : BGraph :=
